@@ -720,11 +720,9 @@ class TimeExceeded (icmp_base):
     self._init(kw)
 
   def _fields (self):
-    f = ['mtu']
-    r = {}
-    for ff in f:
-      r[ff] = getattr(self, ff)
-    return r
+    return {}
+
+  pack = packet_base.pack
 
   @classmethod
   def unpack_new (cls, raw, offset = 0, buf_len = None, prev = None):
@@ -779,7 +777,7 @@ class PacketTooBig (icmp_base):
     if buf_len is None: buf_len = len(raw)
 
     try:
-      o.mtu = struct.unpack_from("!I", raw, offset)
+      o.mtu = struct.unpack_from("!I", raw, offset)[0]
       offset += 4
 
       o.next = raw[offset:buf_len]
@@ -792,6 +790,8 @@ class PacketTooBig (icmp_base):
     o.raw = raw[_offset:offset]
     o.prev = prev
     return offset,o
+
+  pack = packet_base.pack
 
   def hdr (self, payload):
     return struct.pack('!I', self.mtu)
